@@ -45,25 +45,27 @@ def getProgram (j : Json) : Except String Program := do
 def frameStr : Frame → String
   | .none => "none" | .block => "block" | .fn _ => "fn" | .varD _ => "var" | .other => "other"
 
-def stJson (st : St) : Json := Json.mkObj [
+def stJson (ob : Obj) : Json :=
+  let st := ob.st
+  Json.mkObj [
   ("ident", Json.num (JsonNumber.fromNat st.ident)), ("is_unit", st.isUnit), ("is_lambda", st.isLambda),
   ("_cast_integers", st.cast), ("_nodes_stack", Json.arr (st.stack.reverse.toArray.map fun f => Json.str (frameStr f))),
-  ("package", match st.package with | some s => Json.str s | none => Json.null),
+  ("package", match ob.package with | some s => Json.str s | none => Json.null),
   ("context_classes", Json.arr (st.context.toArray.map fun c => Json.str (className c)))]
 
 def handle : Handler := fun op j =>
   match op with
   | "trans.kotlin" => some (do
       let p ← getProgram j
-      let st := after (initSt (getPackage j)) (← getHistory j)
+      let st := after (initObj (getPackage j)) (← getHistory j)
       pure (res (Json.str (text st p))))
   | "trans.kotlin.doc" => some (do
       let p ← getProgram j
-      let st := after (initSt (getPackage j)) (← getHistory j)
+      let st := after (initObj (getPackage j)) (← getHistory j)
       pure (res (Json.arr ((programDoc st p).2.toArray.map pieceJson))))
   | "trans.kotlin.state" => some (do
       let p ← getProgram j
-      let st := after (initSt (getPackage j)) (← getHistory j)
+      let st := after (initObj (getPackage j)) (← getHistory j)
       pure (res (stJson (visitProgram st p))))
   | "trans.kotlin.inventory" => some (do
       let p ← getProgram j
